@@ -35,7 +35,8 @@ def history_cases(draw):
                 ops.append({"op": "step", "m": draw(st.integers(1, 3))})
             else:
                 m = draw(st.one_of(st.sampled_from([0, 0, 100, 200]), st.integers(1, 99), st.integers(101, 350)))
-                ops.append({"op": "advance", "m": m})
+                # a count read from an array is a numpy integer scalar, of whatever width the array has
+                ops.append({"op": "advance", "m": m, "m_type": draw(st.sampled_from([None, None, None, "uint8", "int8", "int16", "uint16", "int32", "int64"]))})
     cfg["ops"] = ops
     return cfg
 
@@ -58,7 +59,11 @@ def body_counts(case, ctx):
             warnings.simplefilter("ignore")
             with np.errstate(all="ignore"):
                 if op["op"] == "advance":
-                    ch.advance(op["m"])
+                    m_arg = op["m"]
+                    if op.get("m_type") and op["m"] <= np.iinfo(op["m_type"]).max:
+                        m_arg = np.dtype(op["m_type"]).type(op["m"])
+                        ctx.event("m given as numpy " + op["m_type"])
+                    ch.advance(m_arg)
                     expected += op["m"] * nw
                     seen.add("0" if op["m"] == 0 else ("<100" if op["m"] < 100 else ("mult" if op["m"] % 100 == 0 else "nonmult")))
                 else:
